@@ -30,10 +30,12 @@
 (* NB  TLC does not cache LET definitions when run with -coverage, so      *)
 (* every intermediate heap is bound strictly with Let(e, LAMBDA x : ...).  *)
 (***************************************************************************)
-EXTENDS C03_Defs
+EXTENDS C03_Defs, Json
 
 CONSTANTS MaxDepth,    \* length of the histories explored
           MaxTens,     \* bound on the number of tensor objects
+          Judge,       \* FALSE: do not compute verdicts (cheap generation of behaviours for replay)
+          Record,      \* TRUE: keep the history variable `hist` (simulation for replay only)
           Dev          \* "none" | "write"   (in-place scale writes into the shared buffer: data *= c)
                        \*        | "self"    (plain retag starts with x = self)
                        \*        | "netself" (plain network relabel starts with tn = self)
@@ -43,8 +45,9 @@ CONSTANTS MaxDepth,    \* length of the histories explored
 VARIABLES H,        \* the heap
           depth,
           act,      \* last action (hidden by the VIEW)
-          bad       \* names of the clauses that were false on the call record of the last step
-vars == <<H, depth, act, bad>>
+          bad,      \* names of the clauses that were false on the call record of the last step
+          hist      \* Record = TRUE: the actions so far with the sharing structure they lead to
+vars == <<H, depth, act, bad, hist>>
 view == <<H, depth, bad>>
 
 \* strict binding: evaluate e once, then Body on the value
@@ -210,7 +213,7 @@ CallRecordOf(h, o, f, arg, p, c, hi, v0, vp) ==
    args    |-> <<>>,
    sharers |-> Around(h, p.h, Objects(h) \ {o}),
    arrays  |-> ArraysAround(h, p.h),
-   plain   |-> [exc |-> "", st |-> vp, dq |-> 0],
+   plain   |-> [exc |-> "", st |-> vp, stw |-> vp, dq |-> 0],
    inpl    |-> [exc |-> "", st |-> Val(hi, c.o), dq |-> 0, self |-> TRUE,
                 orig |-> [before |-> Obs(h, o), after |-> Obs(hi, o)],
                 arrays |-> ArraysAround(h, hi)],
@@ -221,8 +224,8 @@ CallRecordOf(h, o, f, arg, p, c, hi, v0, vp) ==
                         THEN [k \in DOMAIN arg |-> Pos(hp.tens[o[2]].inds, PermuteSeq(h.tens[o[2]].inds, arg)[k])]
                         ELSE arg, LAMBDA argp :
                       Let(Plain(hp, o, f, argp), LAMBDA pp :
-                        [exc |-> "", st |-> Val(pp.h, pp.res), dq |-> 0, same_in |-> Val(hp, o) = v0])))],
-   randomised |-> FALSE, docself |-> TRUE, hasinpl |-> TRUE]
+                        [exc |-> "", st |-> Val(pp.h, pp.res), dq |-> 0, level |-> "tensor", same_in |-> Val(hp, o) = v0])))],
+   randomised |-> FALSE, docself |-> TRUE, hasinpl |-> TRUE, gauge |-> FALSE]
 
 BinaryRecordOf(h, q, p) ==
   [ev |-> "call", name |-> q[1],
@@ -230,14 +233,14 @@ BinaryRecordOf(h, q, p) ==
    args    |-> << [before |-> Obs(h, q[3]), after |-> Obs(p.h, q[3])] >>,
    sharers |-> Around(h, p.h, Objects(h) \ {q[2], q[3]}),
    arrays  |-> ArraysAround(h, p.h),
-   plain   |-> [exc |-> "", st |-> Val(p.h, p.res), dq |-> 0],
+   plain   |-> [exc |-> "", st |-> Val(p.h, p.res), stw |-> Val(p.h, p.res), dq |-> 0],
    inpl    |-> [exc |-> ""],
    perm    |-> [s \in Storages(h, q[2]) \cup Storages(h, q[3]) |->
                   Let(PermuteStorageH(h, s[1], s[2]), LAMBDA hp :
                     Let(RunBinary(hp, q), LAMBDA pp :
-                      [exc |-> "", st |-> Val(pp.h, pp.res), dq |-> 0,
+                      [exc |-> "", st |-> Val(pp.h, pp.res), dq |-> 0, level |-> "tensor",
                        same_in |-> Val(hp, q[2]) = Val(h, q[2]) /\ Val(hp, q[3]) = Val(h, q[3])]))],
-   randomised |-> FALSE, docself |-> FALSE, hasinpl |-> FALSE]
+   randomised |-> FALSE, docself |-> FALSE, hasinpl |-> FALSE, gauge |-> FALSE]
 
 FailedIn(r) == Let(r, LAMBDA rv : Let(CallClauses(rv), LAMBDA cl : {cl[k][1] : k \in {j \in DOMAIN cl : ~cl[j][2]}}))
 
@@ -272,38 +275,51 @@ VerdictQuiet(h, h2, valueOnly) ==
 
 (* ------------------------------ actions -------------------------------- *)
 Room(h, o) == Len(h.tens) + (IF o[1] = "T" THEN 1 ELSE Len(h.nets[o[2]].ts)) <= MaxTens
-Step(a)    == depth < MaxDepth /\ depth' = depth + 1 /\ act' = a
+\* which tensors read the same buffer: for every tensor the smallest tensor id reading its buffer
+ShareOf(h) == [t \in DOMAIN h.tens |->
+                 CHOOSE u \in DOMAIN h.tens :
+                    /\ h.arrs[h.tens[u].arr].buf = h.arrs[h.tens[t].arr].buf
+                    /\ \A w \in DOMAIN h.tens : h.arrs[h.tens[w].arr].buf = h.arrs[h.tens[t].arr].buf => u <= w]
+Step(a)    == /\ depth < MaxDepth /\ depth' = depth + 1 /\ act' = a
+              /\ hist' = IF Record THEN Append(hist, [act |-> a, share |-> ShareOf(H'), inds |-> [t \in DOMAIN H'.tens |-> H'.tens[t].inds],
+                                                         nets |-> [n \in DOMAIN H'.nets |-> H'.nets[n].ts]])
+                          ELSE hist
+\* copying / viewing / adopting / re-storing only set the scene: a history ends with a call
+Setup(a)   == depth + 1 < MaxDepth /\ Step(a)
 
 \* c = o.copy()
 Copy(o) ==
-  /\ Room(H, o)
-  /\ \E c \in {CopyO(H, o)} : H' = c.h /\ bad' = VerdictQuiet(H, c.h, FALSE)
-  /\ Step(<<"copy", o>>)
+  /\ depth + 1 < MaxDepth /\ Room(H, o)
+  /\ \E c \in {CopyO(H, o)} : H' = c.h /\ bad' = (IF Judge THEN VerdictQuiet(H, c.h, FALSE) ELSE {})
+  /\ Setup(<<"copy", o>>)
 \* v = n.copy(virtual=True)
 VCopy(n) ==
-  /\ \E c \in {CopyN(H, n, TRUE)} : H' = c.h /\ bad' = VerdictQuiet(H, c.h, FALSE)
-  /\ Step(<<"vcopy", n>>)
+  /\ depth + 1 < MaxDepth
+  /\ \E c \in {CopyN(H, n, TRUE)} : H' = c.h /\ bad' = (IF Judge THEN VerdictQuiet(H, c.h, FALSE) ELSE {})
+  /\ Setup(<<"vcopy", n>>)
 \* m = TensorNetwork([t], virtual=True): t is now owned by one more network
 Adopt(t) ==
+  /\ depth + 1 < MaxDepth
   /\ H' = [H EXCEPT !.nets = Append(@, [ts |-> <<t>>, exp |-> 0])] /\ bad' = {}
-  /\ Step(<<"adopt", t>>)
+  /\ Setup(<<"adopt", t>>)
 \* t.transpose_(*perm): same labelled content, another stored order; every object keeps its *value*
 PermuteStorage(t, pi) ==
-  /\ \E k \in DOMAIN pi : pi[k] # k
+  /\ depth + 1 < MaxDepth /\ \E k \in DOMAIN pi : pi[k] # k
   /\ \E h2 \in {PermuteStorageH(H, t, pi)} :
-        H' = h2 /\ bad' = VerdictQuiet(H, h2, TRUE) \cup VerdictInplace(H, <<"T", t>>, "transpose", pi, h2)
-  /\ Step(<<"permute", t, pi>>)
+        H' = h2 /\ bad' = (IF Judge THEN VerdictQuiet(H, h2, TRUE) \cup VerdictInplace(H, <<"T", t>>, "transpose", pi, h2) ELSE {})
+  /\ Setup(<<"permute", t, pi>>)
 CallPlain(o, c) ==
-  /\ Room(H, o)
-  /\ \E p \in {Plain(H, o, c[1], c[2])} : H' = p.h /\ bad' = VerdictPlain(H, o, c[1], c[2], p)
+  /\ depth < MaxDepth /\ Room(H, o)
+  /\ \E p \in {Plain(H, o, c[1], c[2])} : H' = p.h /\ bad' = (IF Judge THEN VerdictPlain(H, o, c[1], c[2], p) ELSE {})
   /\ Step(<<"plain", o, c>>)
 CallInplace(o, c) ==
-  /\ c[1] # "transpose"
-  /\ \E hi \in {Inpl(H, o, c[1], c[2])} : H' = hi /\ bad' = VerdictInplace(H, o, c[1], c[2], hi)
+  /\ depth < MaxDepth /\ c[1] # "transpose"
+  /\ \E hi \in {Inpl(H, o, c[1], c[2])} : H' = hi /\ bad' = (IF Judge THEN VerdictInplace(H, o, c[1], c[2], hi) ELSE {})
   /\ Step(<<"inplace", o, c>>)
 Binary(q) ==
+  /\ depth < MaxDepth
   /\ Len(H.tens) + (IF q[2][1] = "T" THEN 2 ELSE Len(H.nets[q[2][2]].ts) + Len(H.nets[q[3][2]].ts)) <= MaxTens
-  /\ \E p \in {RunBinary(H, q)} : H' = p.h /\ bad' = VerdictBinary(H, q, p)
+  /\ \E p \in {RunBinary(H, q)} : H' = p.h /\ bad' = (IF Judge THEN VerdictBinary(H, q, p) ELSE {})
   /\ Step(<<"binary", q>>)
 
 CopyA     == \E o \in Objects(H) : Copy(o)
@@ -323,9 +339,12 @@ Init ==
           tens |-> << [arr |-> 1, inds |-> <<"a", "b", "c">>, tags |-> {"P"}, left |-> {"a"}],
                       [arr |-> 2, inds |-> <<"c", "d">>, tags |-> {"Q"}, left |-> {}] >>,
           nets |-> << [ts |-> <<1, 2>>, exp |-> 0] >>]
-  /\ depth = 0 /\ act = <<"init">> /\ bad = {}
+  /\ depth = 0 /\ act = <<"init">> /\ bad = {} /\ hist = <<>>
 
 Spec == Init /\ [][Next]_vars
+
+\* a complete behaviour is printed when it reaches the depth bound (S->C replay)
+EmitJson == depth = MaxDepth => PrintT(<<"QVJSON", ToJson(hist)>>)
 
 (* ----------------------------- properties ------------------------------ *)
 PlainPureInv            == "PlainPure" \notin bad
